@@ -1056,7 +1056,7 @@ fn serde_roundtrip_case(out: &mut Out, w: &[u8]) {
         }
     }
 }
-const HOLD_UNC_ROOT: bool = true;
+const HOLD_UNC_ROOT: bool = false;
 
 
 // ------------------------------------------------------------------ constant names, three-part chains
